@@ -56,12 +56,13 @@ def job_reads(f, accel, njobs):
         else:
             k, p = f["kernel"], f["pad"]
             up = 2 if f["upscale"] else 1
-            # kernels larger than 8x8 elements are decomposed: a block is computed in several passes, one per sub-kernel, and the first job of an operation
-            # only reads the window of the first sub-kernel (top-left); the later sub-kernel jobs are not modelled individually (H8), so for decomposed
-            # kernels only job 0 is compared (njobs is cut to 1 below)
-            sub_h = min(k["dilated_h"], (max(8 // k["dilation_y"], 1) - 1) * k["dilation_y"] + 1)
-            sub_w = min(k["dilated_w"], (max(8 // k["dilation_x"], 1) - 1) * k["dilation_x"] + 1)
-            decomposed = sub_h < k["dilated_h"] or sub_w < k["dilated_w"]
+            # kernels larger than 8x8 elements are decomposed by the hardware into sub-kernel passes *inside* a block job ("jobs are invisibly decomposed into
+            # subkernels"): a job reads the window of the whole kernel, up to the largest window the block-dependency rule of the hardware description accounts for
+            # (64 columns x 32 rows, H8).  (An earlier version of this model used the first 8x8 sub-kernel only; that was weaker than the documented rule and hid
+            # a seeded change that sized the window by the sub-kernel limit.)
+            sub_h = min(k["dilated_h"], 32)
+            sub_w = min(k["dilated_w"], 64)
+            decomposed = False
             ry0 = y0 * k["stride_y"] - p["top"]
             ry1 = (y1 - 1) * k["stride_y"] - p["top"] + sub_h
             rx0 = x0 * k["stride_x"] - p["left"]
